@@ -106,6 +106,7 @@ class World:
             idx = self.conn_index(data.server)
         self.log("hook", hook.name, idx, k)
         kind = self.net.point("hook:" + hook.name)
+        completed = False
         try:
             if kill:
                 if hook.name == "client_connected":
@@ -115,8 +116,9 @@ class World:
             if dur:
                 await asyncio.sleep(dur * U)
             self.net.after_point(kind)
+            completed = True
         finally:
-            self.log("hook_end", hook.name, idx, k)
+            self.log("hook_end", hook.name, idx, k, completed)  # completed=False: the awaiting task was cancelled
 
     # ---- scripted layer: `layer.handle_event(event)`
     def handle_event(self, event):
@@ -186,6 +188,29 @@ class Handler(mode_servers.ProxyConnectionHandler):
         return await super().open_connection(command)
 
 
+def _observe_slots(h, w):
+    """log when a connection task has to queue for its address' max_conns semaphore (observation only: the
+    semaphores are the handler's own, created by its own default factory)"""
+    import collections
+    inner = h.max_conns
+
+    class Slots(collections.defaultdict):
+        def __missing__(self, key):
+            sem = inner[key]
+            orig = sem.acquire
+
+            async def acquire():
+                if sem.locked():
+                    w.log("slot_wait", w.task_server.get(asyncio.current_task()))
+                return await orig()
+
+            sem.acquire = acquire
+            self[key] = sem
+            return sem
+
+    h.max_conns = Slots()
+
+
 def run_plan(plan, fault=None, max_iter=60_000):
     """Run handle_client for one plan (optionally with one injected fault).  Returns (world, outcome)."""
     box = {}
@@ -205,6 +230,7 @@ def run_plan(plan, fault=None, max_iter=60_000):
         h.world = w
         w.handler = h
         h.layer = w
+        _observe_slots(h, w)
         await h.handle_client()
         w.returned = True
         w.log("returned")
